@@ -93,7 +93,9 @@ def rule_r2(ck, prog, cg, roles, rule='C03.R2', which=EXPORTER_EXPORT, what='Exp
     if not entries:
         raise AnalysisBroken('%s: no worker thread entry found' % roles.short)
     # public surface: every non-private method of the class, except lambdas
-    public = [f for f in funcs if f.cls == cls and not f.d.get('lambda') and f.d.get('access') == 'public']
+    # entry points reached on a caller's thread: public members, and overrides of base-class virtuals of any access
+    # (OnShutDown/OnForceFlush are private overrides invoked through the base class's public Shutdown/ForceFlush)
+    public = [f for f in funcs if f.cls == cls and not f.d.get('lambda') and (f.d.get('access') == 'public' or f.d.get('over'))]
     n = 0
     for (ef, en) in export_fns:
         n += 1
@@ -142,6 +144,18 @@ def rule_r2_single_worker(ck, prog, cg, roles, per_cycle_ok=False):
             continue
         if not reaches_export:
             continue
+        # the function that starts a task thread which drives the exporter must itself run only on the worker:
+        # started from a caller's thread (e.g. a final collect in OnShutDown) it exports concurrently with the worker's cycle
+        entries2 = [f for f in roles.funcs if f.cls == roles.cls and not f.d.get('lambda') and (f.d.get('access') == 'public' or f.d.get('over')) and
+                    f.key not in roles.thread_entries and f.kind not in ('ctor', 'dtor')]
+        offenders = [e for e in entries2 if sf.key in cg.reachable([e.key], follow_threads=False)]
+        if offenders:
+            pth = cg.path(offenders[0].key, sf.key) or []
+            ck.violation('C03.R2', sf, 'task-thread-started-only-by-worker', None,
+                         '%s, which starts a thread that calls the exporter\'s Export, is reachable from %s on the caller\'s thread: that export runs concurrently with the worker\'s own cycle' % (short(sf), short(offenders[0])),
+                         path=' -> '.join(short(prog.funcs[k]) for k in pth))
+        else:
+            ck.holds('C03.R2', sf, 'task-thread-started-only-by-worker', None, 'the per-cycle task thread is started only on the worker')
         # a thread started elsewhere that reaches Export: must be joined before the starter returns
         g = Graph(prog, sf, inline=None, sync_lambdas=False)
         starts = g.calls('std::thread::thread')
@@ -428,4 +442,10 @@ def run(ck, prog):
                shutdown_method='OnShutDown', cg=cg)
     rule_r2(ck, prog, cg, pr)
     rule_r2_single_worker(ck, prog, cg, pr)
+    # the simple processors rely on the spin lock: its structural rules (see C11) are prerequisites of "one Export at a time"
+    from . import c11
+    ck.doc('C11.R3', '(prerequisite, see C11) minimum memory orders of the spin lock', 3)
+    ck.doc('C11.R4', '(prerequisite, see C11) spin lock: lock returns only when acquired; try_lock false on a held lock; unlock stores false', 3)
+    c11.rule_r3(ck, prog, 'sdk::common::CircularBuffer', only_spin=True)
+    c11.rule_r4(ck, prog)
     return {'call_graph_functions': len(cg.calls)}
